@@ -15,26 +15,27 @@ Lemma vsconcatR_failed r : failed r -> failed (vsconcatR r).
 Proof. intros H. unfold vsconcatR, sconcatR. apply failed_bind, H. Qed.
 
 (* ------------------------------------------------------------------ simulation of one stage *)
-(* a stream function simulates a value function on the domain D: on every non-empty stream
-   whose concatenation (if it has one) lies in D, the concatenated output agrees with the
-   value function on the concatenated input, and the output stream is not empty *)
+(* a stream function simulates a value function on the domain D: on every non-empty sound
+   stream (it carries an error item or its chunks concatenate) whose concatenation (if it
+   has one) lies in D, the concatenated output agrees with the value function on the
+   concatenated input, and the output stream is not empty and sound again *)
 Definition sim (D : val -> Prop) (fv : val -> res val) (fs : stream val -> res (stream val)) : Prop :=
-  forall s, s <> [] -> (forall x, vsconcat s = Ok x -> D x) ->
-    agree (vsconcatR (fs s)) (res_bind (vsconcat s) fv) /\ (forall o, fs s = Ok o -> o <> []).
+  forall s, s <> [] -> sound s -> (forall x, vsconcat s = Ok x -> D x) ->
+    agree (vsconcatR (fs s)) (res_bind (vsconcat s) fv) /\ (forall o, fs s = Ok o -> o <> [] /\ sound o).
 
 Lemma sim_weaken (D D' : val -> Prop) fv fs : (forall x, D' x -> D x) -> sim D fv fs -> sim D' fv fs.
-Proof. intros H Hs s Hn Hd. apply Hs; auto. Qed.
+Proof. intros H Hs s Hn Hso Hd. apply Hs; auto. Qed.
 
 Lemma sim_ext D fv fv' fs fs' :
   (forall x, fv x = fv' x) -> (forall s, fs s = fs' s) -> sim D fv fs -> sim D fv' fs'.
 Proof.
-  intros Hv Hs H s Hn Hd. destruct (H s Hn Hd) as (Ha & Hne). rewrite <- Hs. split; auto.
+  intros Hv Hs H s Hn Hso Hd. destruct (H s Hn Hso Hd) as (Ha & Hne). rewrite <- Hs. split; auto.
   destruct (vsconcat s); simpl in *; auto. rewrite <- Hv. exact Ha.
 Qed.
 
 Lemma sim_id : sim (fun _ => True) (fun x => Ok x) (fun s => Ok s).
 Proof.
-  intros s Hn _. split; [|intros o H; inversion H; subst; auto].
+  intros s Hn Hso _. split; [|intros o H; inversion H; subst; auto].
   change (agree (vsconcat s) (res_bind (vsconcat s) (fun x => Ok x))).
   destruct (vsconcat s); simpl; auto.
 Qed.
@@ -50,14 +51,14 @@ Lemma sim_comp D1 D2 f fs g gs :
   sim (fun x => D1 x /\ forall y, f x = Ok y -> D2 y)
       (fun x => do y <- f x; g y) (fun s => do o <- fs s; gs o).
 Proof.
-  intros H1 H2 s Hn Hd.
-  destruct (H1 s Hn (fun x Hx => proj1 (Hd x Hx))) as (Ha & Hne).
+  intros H1 H2 s Hn Hso Hd.
+  destruct (H1 s Hn Hso (fun x Hx => proj1 (Hd x Hx))) as (Ha & Hne).
   destruct (fs s) as [o| |] eqn:Efs; cbn [res_bind]; try rewrite vsconcatR_Ok in *.
-  - specialize (Hne o eq_refl).
+  - destruct (Hne o eq_refl) as (Hno & Hso2).
     assert (Hd2 : forall y, vsconcat o = Ok y -> D2 y).
     { intros y Hy. rewrite Hy in Ha. apply agree_ok_l in Ha.
       apply bind_ok_inv in Ha as (x & Hx & Hfx). exact (proj2 (Hd x Hx) y Hfx). }
-    destruct (H2 o Hne Hd2) as (Hb & Hne2). split; auto.
+    destruct (H2 o Hno Hso2 Hd2) as (Hb & Hne2). split; auto.
     rewrite <- bind_assoc.
     eapply agree_trans; [exact Hb|]. apply agree_bind; auto. intros; apply agree_refl.
   - split; [|discriminate]. rewrite <- bind_assoc.
@@ -70,51 +71,51 @@ Qed.
 
 (* ------------------------------------------------------------------ nodes *)
 (* besides consistency: a native that returns a stream returns a non-empty one (a producer
-   that emits nothing has no Invoke counterpart) *)
+   that emits nothing has no Invoke counterpart) which is sound: it reports a failure by an
+   error item (or at call time), never by chunks that cannot be put together *)
 Record node_nonempty (n : node val val) : Prop := {
-  nn_S : forall f, nS n = Some f -> forall x o, f x = Ok o -> o <> [];
-  nn_T : forall f, nT n = Some f -> forall s o, s <> [] -> f s = Ok o -> o <> []
+  nn_S : forall f, nS n = Some f -> forall x o, f x = Ok o -> o <> [] /\ sound o;
+  nn_T : forall f, nT n = Some f -> forall s o, s <> [] -> sound s -> f s = Ok o -> o <> [] /\ sound o
 }.
 
 Definition node_ok (n : node val val) : Prop :=
   has_any n = true /\ node_nonempty n /\ exists f, node_consistent val val vconcat vconcat n f.
 
 Lemma vT_nonempty n : has_any n = true -> node_nonempty n ->
-  forall s o, s <> [] -> vT n s = Ok o -> o <> [].
+  forall s o, s <> [] -> sound s -> vT n s = Ok o -> o <> [] /\ sound o.
 Proof.
-  intros Hany Hne s o Hs. unfold vT, view_T.
+  intros Hany Hne s o Hs Hso. unfold vT, view_T.
   destruct (used_some _ _ n PT Hany) as (p & E & Hp & _). rewrite E.
   destruct p.
   - intros H. apply bind_ok_inv in H as (x & _ & H). apply bind_ok_inv in H as (y & _ & H).
-    inversion H. discriminate.
+    inversion H. split; [discriminate|apply sound_box].
   - intros H. apply bind_ok_inv in H as (x & _ & H).
     destruct (has_callS _ _ n Hp) as (f & Ef & Hc). rewrite Hc in H. eapply nn_S; eauto.
-  - intros H. apply bind_ok_inv in H as (y & _ & H). inversion H. discriminate.
+  - intros H. apply bind_ok_inv in H as (y & _ & H). inversion H. split; [discriminate|apply sound_box].
   - destruct (has_callT _ _ n Hp) as (f & Ef & Hc). rewrite Hc. intros H. eapply nn_T; eauto.
 Qed.
 
 Lemma sim_node n : node_ok n -> sim (fun _ => True) (vI n) (vT n).
 Proof.
-  intros (Hany & Hne & f & Hc) s Hs _. split.
+  intros (Hany & Hne & f & Hc) s Hs Hso _. split.
   - apply (views_agree_lem val val vconcat vconcat n f Hc Hany s Hs).
   - intros o Ho. eapply vT_nonempty; eauto.
 Qed.
 
 Lemma sim_withKey k : sim (fun _ => True) (v_withKey k) (fun s => Ok (s_withKey k s)).
 Proof.
-  intros s Hs _. split.
-  - simpl. apply concat_withKey_lem, Hs.
-  - intros o H. inversion H. apply withKey_nonnil, Hs.
+  intros s Hs Hso _. destruct (concat_withKey_lem k s Hs Hso) as (Ha & Hso').
+  split; [exact Ha|]. intros o H. inversion H. subst. split; [apply withKey_nonnil, Hs|exact Hso'].
 Qed.
 
 Definition has_key (k : N) (x : val) : Prop :=
-  match x with VM m => mhas k m = true | VS _ => True end.
+  match x with VM m => m_get k m <> None | VS _ => True end.
 
 Lemma sim_keyFilter k : sim (has_key k) (v_getKey k) (fun s => Ok (s_keyFilter k s)).
 Proof.
-  intros s Hs Hd.
-  destruct (concat_keyFilter_lem k s Hs (fun m Hm => Hd (VM m) Hm)) as (Ha & Hne).
-  split; auto. intros o H. inversion H. subst. exact Hne.
+  intros s Hs Hso Hd.
+  destruct (concat_keyFilter_lem k s Hs Hso (fun m Hm => Hd (VM m) Hm)) as (Ha & Hne & Hso').
+  split; auto. intros o H. inversion H. subst. auto.
 Qed.
 
 (* ------------------------------------------------------------------ wrapped nodes *)
@@ -176,7 +177,7 @@ Lemma inkey_ok_spec w x : inkey_ok w x = true ->
 Proof.
   unfold inkey_ok, pre_v. destruct (w_in w) as [k|]; auto.
   intros H x1 E.
-  rewrite E in H. destruct x1; simpl; auto; discriminate.
+  rewrite E in H. destruct x1 as [c|m]; simpl; auto. destruct (m_get k m); [discriminate|discriminate].
 Qed.
 
 Lemma sim_wrap w D core_v core_s :
@@ -347,61 +348,51 @@ Proof.
 Qed.
 
 (* run-time type check of an any-typed edge *)
-Lemma check_good m s : good (s_check m s) -> good s.
-Proof.
-  intros Hg. apply good_items in Hg. apply good_items.
-  assert (Hin : forall it, In it s ->
-            In (match it with
-                | Val x => if Bool.eqb (is_map x) m then Val x else Bad e_type
-                | Bad e => Bad e
-                end) (s_check m s)).
-  { intros it H. unfold s_check. apply in_map_iff. exists it. split; auto. }
-  destruct m.
-  - right. intros it Hit. specialize (Hin it Hit). destruct it as [[c|mm]|e]; simpl in Hin.
-    + exfalso. destruct Hg as [Hg|Hg]; destruct (Hg _ Hin) as (? & ?); discriminate.
-    + eauto.
-    + exfalso. destruct Hg as [Hg|Hg]; destruct (Hg _ Hin) as (? & ?); discriminate.
-  - left. intros it Hit. specialize (Hin it Hit). destruct it as [[c|mm]|e]; simpl in Hin.
-    + eauto.
-    + exfalso. destruct Hg as [Hg|Hg]; destruct (Hg _ Hin) as (? & ?); discriminate.
-    + exfalso. destruct Hg as [Hg|Hg]; destruct (Hg _ Hin) as (? & ?); discriminate.
-Qed.
+Lemma check_bad m s : has_bad s -> has_bad (s_check m s).
+Proof. apply has_bad_map. reflexivity. Qed.
 
-Lemma concat_check_lem m s : s <> [] ->
-  agree (vsconcat (s_check m s)) (res_bind (vsconcat s) (v_check m)) /\ s_check m s <> [].
+Lemma concat_check_lem m s : s <> [] -> sound s ->
+  agree (vsconcat (s_check m s)) (res_bind (vsconcat s) (v_check m)) /\ s_check m s <> []
+  /\ sound (s_check m s).
 Proof.
-  intros Hn. split; [|destruct s; [congruence|discriminate]].
-  destruct (vsconcat s) as [v| |] eqn:E.
-  2:{ apply agree_failed; [|apply failed_Err].
-      apply (failed_by_good s); [exact Hn|rewrite E; apply failed_Err|apply check_good]. }
-  2:{ apply agree_failed; [|apply failed_Panic].
-      apply (failed_by_good s); [exact Hn|rewrite E; apply failed_Panic|apply check_good]. }
-  cbn [res_bind].
-  apply vsconcat_ok in E as [(ss & Hss & -> & ->)|(ms & Hms & -> & ->)]; unfold v_check; cbn [is_map];
+  intros Hn Hso.
+  assert (Hne : s_check m s <> []) by (destruct s; [congruence|discriminate]).
+  apply sound_cases in Hso as [Hb|[(ss & Hss & ->)|(ms & Hms & -> & Hok)]].
+  - split; [|split; [exact Hne|apply sound_bad, check_bad, Hb]].
+    apply agree_failed; [apply vsconcat_bad, check_bad, Hb|apply failed_bind, vsconcat_bad, Hb].
+  - rewrite vsconcat_sVS by exact Hss. cbn [res_bind]. unfold v_check. cbn [is_map].
     destruct m; cbn [Bool.eqb].
-  - apply agree_failed; [|apply failed_Err].
-    apply all_bad_fails; [exact Hn|]. intros it Hit. apply in_sVS in Hit as (c & ->). simpl. eauto.
-  - assert (Es : s_check false (sVS ss) = sVS ss).
-    { unfold s_check, sVS. rewrite map_map. reflexivity. }
-    rewrite Es, vsconcat_sVS by exact Hss. reflexivity.
-  - assert (Es : s_check true (sVM ms) = sVM ms).
-    { unfold s_check, sVM. rewrite map_map. reflexivity. }
-    rewrite Es, vsconcat_sVM by exact Hms. reflexivity.
-  - apply agree_failed; [|apply failed_Err].
-    apply all_bad_fails; [exact Hn|]. intros it Hit. apply in_sVM in Hit as (c & ->). simpl. eauto.
+    + assert (Hb : has_bad (s_check true (sVS ss))).
+      { apply all_bad; [exact Hn|]. intros it Hit. apply in_sVS in Hit as (c & ->). simpl. eauto. }
+      split; [|split; [exact Hne|apply sound_bad, Hb]].
+      apply agree_failed; [apply vsconcat_bad, Hb|apply failed_Err].
+    + assert (Es : s_check false (sVS ss) = sVS ss).
+      { unfold s_check, sVS. rewrite map_map. reflexivity. }
+      rewrite Es, vsconcat_sVS by exact Hss. split; [reflexivity|]. split; [rewrite <- Es; exact Hne|].
+      right. eexists. apply vsconcat_sVS, Hss.
+  - rewrite vsconcat_sVM_ok by auto. cbn [res_bind]. unfold v_check. cbn [is_map].
+    destruct m; cbn [Bool.eqb].
+    + assert (Es : s_check true (sVM ms) = sVM ms).
+      { unfold s_check, sVM. rewrite map_map. reflexivity. }
+      rewrite Es, vsconcat_sVM_ok by auto. split; [reflexivity|]. split; [rewrite <- Es; exact Hne|].
+      right. eexists. apply vsconcat_sVM_ok; auto.
+    + assert (Hb : has_bad (s_check false (sVM ms))).
+      { apply all_bad; [exact Hn|]. intros it Hit. apply in_sVM in Hit as (c & ->). simpl. eauto. }
+      split; [|split; [exact Hne|apply sound_bad, Hb]].
+      apply agree_failed; [apply vsconcat_bad, Hb|apply failed_Err].
 Qed.
 
 Lemma sim_check m : sim (fun _ => True) (v_check m) (fun s => Ok (s_check m s)).
 Proof.
-  intros s Hs _. destruct (concat_check_lem m s Hs) as (Ha & Hne).
-  split; auto. intros o H. inversion H. subst. exact Hne.
+  intros s Hs Hso _. destruct (concat_check_lem m s Hs Hso) as (Ha & Hne & Hso').
+  split; auto. intros o H. inversion H. subst. auto.
 Qed.
 
 Lemma sim_fmap f : fmap_wf f = true ->
   sim (fun x => fmap_dom f x = true) (v_fmap f) (fun s => Ok (s_fmap f s)).
 Proof.
-  intros Hwf s Hs Hd. destruct (concat_fieldMap_lem f s Hwf Hs Hd) as (Ha & Hne).
-  split; auto. intros o H. inversion H. subst. exact Hne.
+  intros Hwf s Hs Hso Hd. destruct (concat_fieldMap_lem f s Hwf Hs Hso Hd) as (Ha & Hne & Hso').
+  split; auto. intros o H. inversion H. subst. auto.
 Qed.
 
 (* ------------------------------------------------------------------ the run *)
@@ -412,10 +403,11 @@ Section Run.
   Definition D (p : prog) (x : val) : Prop := dom_ok p x = true.
 
   Lemma fanin_ok_spec ys : 2 <= List.length ys -> fanin_ok ys = true ->
-    exists ms, ys = map VM ms /\ disjoint_keys [] ms = true.
+    exists ms, ys = map VM ms /\ disjoint_keys [] ms = true /\ forallb mcons ms = true.
   Proof.
     intros Hl H. destruct ys as [|a [|b ys]]; simpl in Hl; try lia.
     unfold fanin_ok in H. destruct (all_map (a :: b :: ys)) as [ms|] eqn:E; [|discriminate].
+    apply andb_prop in H as (H1 & H2).
     exists ms. split; auto. apply all_map_some, E.
   Qed.
 
@@ -432,7 +424,7 @@ Section Run.
   Proof.
     intros Hil Hl HF Hf.
     assert (Hly : 2 <= List.length ys) by (rewrite <- (F2_len _ _ _ HF); exact Hl).
-    destruct (fanin_ok_spec ys Hly Hf) as (ms & -> & Hd).
+    destruct (fanin_ok_spec ys Hly Hf) as (ms & -> & Hd & Hc).
     apply (concat_merge_lem os ms t); auto.
     clear -HF. remember (map VM ms) as ys eqn:E. revert ms E.
     induction HF as [|o y os ys Ho HF IH]; intros [|m ms] E; try discriminate; constructor.
@@ -456,21 +448,25 @@ Section Run.
       apply failed_bind. apply IH; auto.
   Qed.
 
+  (* a sound stream that does not concatenate carries an error item *)
+  Lemma sound_failed_bad o : o <> [] -> sound o -> failed (vsconcat o) -> has_bad o.
+  Proof. intros _ [H|(v & H)] Hf; auto. exfalso. exact (Hf v H). Qed.
+
   (* fan-out / fan-in *)
   Lemma sim_par pos ps :
     ps <> [] ->
     Forall (fun p => forall pos, sim (D p) (run_value p) (run_stream mrg pos p)) ps ->
     sim (D (PPar ps)) (run_value (PPar ps)) (run_stream mrg pos (PPar ps)).
   Proof.
-    intros Hps HF s Hs Hd.
+    intros Hps HF s Hs Hso Hd.
     rewrite Forall_forall in HF.
     cbn [run_value run_stream].
     set (g := fun i p => run_stream mrg (i :: pos) p s).
     set (fv := fun x => do ys <- mapM (fun p => run_value p x) ps; v_merge ys).
     assert (Hchild : forall p i, In p ps ->
               agree (vsconcatR (g i p)) (res_bind (vsconcat s) (run_value p)) /\
-              (forall o, g i p = Ok o -> o <> [])).
-    { intros p i Hp. apply (HF p Hp (i :: pos) s Hs).
+              (forall o, g i p = Ok o -> o <> [] /\ sound o)).
+    { intros p i Hp. apply (HF p Hp (i :: pos) s Hs Hso).
       intros x Hx. specialize (Hd x Hx). unfold D in *. cbn [dom_ok] in Hd.
       apply andb_prop in Hd as (Hd & _). rewrite forallb_forall in Hd. apply Hd, Hp. }
     (* if some branch fails in value mode, so does the fan-in *)
@@ -490,7 +486,7 @@ Section Run.
         unfold vsconcatR, sconcatR. apply failed_bind, Hf. }
     rewrite Eos. cbn [res_bind].
     pose proof (mapMi_ok g 0 ps os Eos) as HF2.
-    assert (Hone : forall o, In o os -> o <> []).
+    assert (Hone : forall o, In o os -> o <> [] /\ sound o).
     { clear -HF2 Hchild. induction HF2 as [|p o ps os (j & Ej) HF2 IH]; intros o' [].
       - subst o'. apply (Hchild p j (or_introl eq_refl)), Ej.
       - apply (IH (fun p i Hp => Hchild p i (or_intror Hp)) o' H). }
@@ -516,10 +512,12 @@ Section Run.
       assert (Hil : Interleaving os t) by apply mrg_interleaving.
       assert (Htne : t <> []).
       { eapply merge_nonnil; [exact Hil|left; reflexivity|apply Hone; left; reflexivity]. }
-      split; [|intros o1 H; inversion H; subst; exact Htne].
-      rewrite vsconcatR_Ok.
-      assert (Hbad : forall o1, In o1 os -> failed (vsconcat o1) -> failed (vsconcat t)).
-      { intros o1 Ho Hf. eapply merge_failed; eauto. }
+      assert (Hbad : forall o1, In o1 os -> failed (vsconcat o1) -> has_bad t).
+      { intros o1 Ho Hf. destruct (Hone o1 Ho) as (Hn1 & Hs1).
+        eapply merge_bad; eauto. apply sound_failed_bad; auto. }
+      cut (agree (vsconcat t) (res_bind (vsconcat s) fv) /\ sound t).
+      { intros (Ha & Hst). split; [rewrite vsconcatR_Ok; exact Ha|].
+        intros o1 H; inversion H; subst. split; [exact Htne|exact Hst]. }
       destruct (failed_dec (res_bind (vsconcat s) fv)) as [(v & Ev)|Hvf].
       + (* value mode succeeds: every branch does, the keys are disjoint *)
         apply bind_ok_inv in Ev as (x & Ex & Ev). unfold fv in Ev.
@@ -537,30 +535,34 @@ Section Run.
           - apply IH; auto. intros p' i Hp'. apply Hchild. right; auto. }
         specialize (Hd x Ex). unfold D in Hd. cbn [dom_ok] in Hd.
         apply andb_prop in Hd as (_ & Hd). rewrite Eys in Hd.
-        rewrite (par_general os ys t Hil Hl2 HFo Hd). apply agree_refl.
-      + (* value mode fails: some branch's source does not concatenate *)
-        apply agree_failed; auto.
-        destruct (failed_dec (vsconcat s)) as [(x & Ex)|Hsf].
-        * rewrite Ex in Hvf. cbn [res_bind] in Hvf. unfold fv in Hvf.
-          destruct (failed_dec (mapM (fun p => run_value p x) ps)) as [(ys & Eys)|Hmf].
-          -- (* all branches fine, the merge of the values fails: impossible inside the domain *)
-             exfalso. rewrite Eys in Hvf. cbn [res_bind] in Hvf.
-             specialize (Hd x Ex). unfold D in Hd. cbn [dom_ok] in Hd.
-             apply andb_prop in Hd as (_ & Hd). rewrite Eys in Hd.
-             pose proof (mapM_ok _ _ _ Eys) as HFv.
-             assert (Hly : 2 <= List.length ys).
-             { rewrite <- (F2_len _ _ _ HFv), (F2_len _ _ _ HF2). exact Hl2. }
-             destruct (fanin_ok_spec ys Hly Hd) as (ms & -> & Hdk).
-             unfold v_merge in Hvf. destruct ms as [|a [|b ms]]; simpl in Hly; try lia.
-             change (map VM (a :: b :: ms)) with (VM a :: VM b :: map VM ms) in Hvf.
-             change (VM a :: VM b :: map VM ms) with (map VM (a :: b :: ms)) in Hvf.
-             rewrite all_map_map, Hdk in Hvf. eapply Hvf; reflexivity.
-          -- destruct (mapM_failed _ _ Hmf) as (p & Hp & Hf).
-             destruct (Hsrc p Hp) as (o1 & Ho1 & Ha). apply (Hbad o1 Ho1).
-             eapply agree_failed_r; [exact Ha|]. rewrite Ex. exact Hf.
-        * destruct ps as [|p ps']; [congruence|].
-          destruct (Hsrc p (or_introl eq_refl)) as (o1 & Ho1 & Ha). apply (Hbad o1 Ho1).
-          eapply agree_failed_r; [exact Ha|]. apply failed_bind, Hsf.
+        rewrite (par_general os ys t Hil Hl2 HFo Hd). rewrite Ev.
+        split; [apply agree_refl|].
+        right. exists v. rewrite (par_general os ys t Hil Hl2 HFo Hd). exact Ev.
+      + (* value mode fails: some branch's source carries an error item *)
+        assert (Hbt : has_bad t).
+        { destruct (failed_dec (vsconcat s)) as [(x & Ex)|Hsf].
+          * rewrite Ex in Hvf. cbn [res_bind] in Hvf. unfold fv in Hvf.
+            destruct (failed_dec (mapM (fun p => run_value p x) ps)) as [(ys & Eys)|Hmf].
+            -- (* all branches fine, the merge of the values fails: impossible inside the domain *)
+               exfalso. rewrite Eys in Hvf. cbn [res_bind] in Hvf.
+               specialize (Hd x Ex). unfold D in Hd. cbn [dom_ok] in Hd.
+               apply andb_prop in Hd as (_ & Hd). rewrite Eys in Hd.
+               pose proof (mapM_ok _ _ _ Eys) as HFv.
+               assert (Hly : 2 <= List.length ys).
+               { rewrite <- (F2_len _ _ _ HFv), (F2_len _ _ _ HF2). exact Hl2. }
+               destruct (fanin_ok_spec ys Hly Hd) as (ms & -> & Hdk & _).
+               unfold v_merge in Hvf. destruct ms as [|a [|b ms]]; simpl in Hly; try lia.
+               change (map VM (a :: b :: ms)) with (VM a :: VM b :: map VM ms) in Hvf.
+               change (VM a :: VM b :: map VM ms) with (map VM (a :: b :: ms)) in Hvf.
+               rewrite all_map_map, Hdk in Hvf. eapply Hvf; reflexivity.
+            -- destruct (mapM_failed _ _ Hmf) as (p & Hp & Hf).
+               destruct (Hsrc p Hp) as (o1 & Ho1 & Ha). apply (Hbad o1 Ho1).
+               eapply agree_failed_r; [exact Ha|]. rewrite Ex. exact Hf.
+          * destruct ps as [|p ps']; [congruence|].
+            destruct (Hsrc p (or_introl eq_refl)) as (o1 & Ho1 & Ha). apply (Hbad o1 Ho1).
+            eapply agree_failed_r; [exact Ha|]. apply failed_bind, Hsf. }
+        split; [|apply sound_bad, Hbt].
+        apply agree_failed; auto. apply vsconcat_bad, Hbt.
   Qed.
 
   (* branch: the condition reads its own copy through the Collect view *)
@@ -569,7 +571,7 @@ Section Run.
     Forall (fun p => forall pos, sim (D p) (run_value p) (run_stream mrg pos p)) alts ->
     sim (D (PBranch id c alts)) (run_value (PBranch id c alts)) (run_stream mrg pos (PBranch id c alts)).
   Proof.
-    intros (Hany & f & Hc) HF s Hs Hd.
+    intros (Hany & f & Hc) HF s Hs Hso Hd.
     rewrite Forall_forall in HF.
     cbn [run_value run_stream].
     assert (Hcond : agree (view_C vconcat nat_concat c s) (res_bind (vsconcat s) (view_I nat_concat c))).
@@ -581,7 +583,7 @@ Section Run.
         rewrite !nth_apply_spec.
         destruct (nth_error alts i) as [a|] eqn:En.
         * assert (Ha : In a alts) by (eapply nth_error_In; eauto).
-          destruct (HF a Ha (i :: pos) s Hs) as (Hag & Hne).
+          destruct (HF a Ha (i :: pos) s Hs Hso) as (Hag & Hne).
           { intros x' Ex'. assert (x' = x) by congruence. subst x'.
             specialize (Hd x eq_refl). unfold D in *. cbn [dom_ok] in Hd. rewrite Ei in Hd.
             rewrite nth_apply_spec, En in Hd. exact Hd. }
@@ -627,7 +629,7 @@ Section Run.
     Forall (fun p => forall pos, sim (D p) (run_value p) (run_stream mrg pos p)) alts ->
     sim (D (PMulti id c alts)) (run_value (PMulti id c alts)) (run_stream mrg pos (PMulti id c alts)).
   Proof.
-    intros (Hany & f & Hc) HF s Hs Hd.
+    intros (Hany & f & Hc) HF s Hs Hso Hd.
     cbn [run_value run_stream].
     assert (Hcond : agree (view_C vconcat nat_concat c s) (res_bind (vsconcat s) (view_I nat_concat c))).
     { apply (views_agree_lem val nat vconcat nat_concat c f Hc Hany s Hs). }
@@ -644,7 +646,7 @@ Section Run.
           rewrite (multi_value_par ps x Hne), (multi_stream_par pos ps s Hne).
           assert (HFs : Forall (fun p => forall pos, sim (D p) (run_value p) (run_stream mrg pos p)) ps).
           { apply select_Forall, HF. }
-          destruct (sim_par pos ps Hne HFs s Hs) as (Ha & Hn).
+          destruct (sim_par pos ps Hne HFs s Hs Hso) as (Ha & Hn).
           { intros x' Ex'. assert (x' = x) by congruence. subst x'.
             specialize (Hd x eq_refl). unfold D in *. cbn [dom_ok] in Hd. rewrite Ei in Hd.
             rewrite forallb_mask_select, mapM_mask_select in Hd. cbn [dom_ok]. exact Hd. }
@@ -675,7 +677,7 @@ Section Run.
           (loop_res (fun k => run_stream mrg (k :: pos) body) (again_stream c) fuel).
   Proof.
     intros (Hany & f & Hc) Hb. induction fuel as [|fuel IH].
-    - intros s Hs Hd. cbn [loop_res]. split; [|discriminate].
+    - intros s Hs Hso Hd. cbn [loop_res]. split; [|discriminate].
       apply agree_failed; [apply vsconcatR_failed, failed_Err|].
       destruct (vsconcat s); simpl; [apply failed_Err|apply failed_Err|apply failed_Panic].
     - cbn [loop_res].
@@ -685,7 +687,7 @@ Section Run.
                           loop_dom (fun _ => run_value body) (again_value c) (dom_ok body) fuel y = true).
       assert (Htail : sim D2 (fun y => do b <- again_value c y; if b then lv y else Ok y)
                              (fun o => do b <- again_stream c o; if b then ls o else Ok o)).
-      { intros o Ho Hd.
+      { intros o Ho Hso Hd.
         assert (Hcond : agree (view_C vconcat nat_concat c o) (res_bind (vsconcat o) (view_I nat_concat c))).
         { apply (views_agree_lem val nat vconcat nat_concat c f Hc Hany o Ho). }
         unfold again_stream, again_value.
@@ -694,11 +696,11 @@ Section Run.
           destruct (failed_dec (view_I nat_concat c y)) as [(i & Ei)|Hif].
           + rewrite Ei in *. apply agree_ok_r in Hcond. rewrite Hcond. cbn [res_bind].
             destruct (Nat.eqb i 0) eqn:Eb.
-            * destruct (IH o Ho) as (Ha & Hne).
+            * destruct (IH o Ho Hso) as (Ha & Hne).
               { intros y' Ey'. assert (y' = y) by congruence. subst y'.
                 apply (Hd y eq_refl). unfold again_value. rewrite Ei. cbn [res_bind]. rewrite Eb. reflexivity. }
               rewrite Ey in Ha. split; auto.
-            * split; [rewrite vsconcatR_Ok, Ey; reflexivity|intros o' H; inversion H; subst; exact Ho].
+            * split; [rewrite vsconcatR_Ok, Ey; reflexivity|intros o' H; inversion H; subst; auto].
           + assert (Hcf : failed (view_C vconcat nat_concat c o)) by (eapply agree_failed_r; eauto).
             split.
             * apply agree_failed; [apply vsconcatR_failed, failed_bind, failed_bind, Hcf|apply failed_bind, failed_bind, Hif].
@@ -754,9 +756,9 @@ Section Run.
   Proof.
     intros p Hok chunks x Hn Ex Hd.
     assert (Hs : map Val chunks <> []) by (destruct chunks; [congruence|discriminate]).
-    destruct (run_sim_lem p Hok [] (map Val chunks) Hs) as (Ha & _).
+    destruct (run_sim_lem p Hok [] (map Val chunks) Hs (sound_ok _ _ Ex)) as (Ha & _).
     { intros x' Ex'. assert (x' = x) by congruence. subst. exact Hd. }
-    destruct (run_sim_lem p Hok [] (box x)) as (Hb & _); [discriminate| |].
+    destruct (run_sim_lem p Hok [] (box x)) as (Hb & _); [discriminate|apply sound_box| |].
     { intros x' Ex'. cbn in Ex'. inversion Ex'. subst. exact Hd. }
     rewrite Ex in Ha. cbn [res_bind] in Ha. cbn in Hb.
     unfold g_stream, g_collect, g_transform, g_invoke. auto.
@@ -769,11 +771,11 @@ Theorem interleaving_irrelevant_lem
   (H1 : forall pos ls, Interleaving ls (mrg1 pos ls))
   (H2 : forall pos ls, Interleaving ls (mrg2 pos ls)) :
   forall p, prog_ok p ->
-  forall s, s <> [] -> (forall x, vsconcat s = Ok x -> dom_ok p x = true) ->
+  forall s, s <> [] -> sound s -> (forall x, vsconcat s = Ok x -> dom_ok p x = true) ->
     agree (vsconcatR (g_transform mrg1 p s)) (vsconcatR (g_transform mrg2 p s)).
 Proof.
-  intros p Hok s Hs Hd.
-  destruct (run_sim_lem mrg1 H1 p Hok [] s Hs Hd) as (Ha & _).
-  destruct (run_sim_lem mrg2 H2 p Hok [] s Hs Hd) as (Hb & _).
+  intros p Hok s Hs Hso Hd.
+  destruct (run_sim_lem mrg1 H1 p Hok [] s Hs Hso Hd) as (Ha & _).
+  destruct (run_sim_lem mrg2 H2 p Hok [] s Hs Hso Hd) as (Hb & _).
   unfold g_transform. eapply agree_trans; [exact Ha|apply agree_sym, Hb].
 Qed.
